@@ -24,7 +24,7 @@ func init() {
 		Note:      "trusted: Go channel semantics; single-goroutine ownership of path fields"})
 	register(Property{ID: "C20", Level: "other", Run: runC20,
 		Technique: "static analysis: per-holder pairing idioms for the closures returned by hooks.On* (defer / nil-guarded field / resource-paired field), who-may-store and who-may-call on holder fields, guarded-caller tables (go/ssa)",
-		Text:      "Every closure returned by hooks.On* (13 sites) is held by one of three idioms, and each idiom is checked: locals are deferred or called on every path to return; path.onOfflineHook is stored only in setOnline after setOffline and called only nil-guarded in setOffline followed by = nil; path.onUnDemandHook is stored only in onDemandPublisherStart (entered only from state initial), called and cleared only in onDemandPublisherStop and the run teardown; path.onUnavailableHook is stored only in setAvailable after the stream initialised and called only in setNotAvailable, whose callers are each dominated by a literal implying the stream is held (frozen table) and which clears the stream on all paths; after a successful setAvailable every error exit rolls back; server-side field holders (rtsp conn/session, hls session) are stored and called only in their paired functions under the paired state literal; conversely (closed_when_open) in every closing function of the table - for path.run: after the event loop returned - every path to a return runs the stop closure unless it passes the edge on which the 'pair is open' literal is false (holder == nil, state != play, stream == nil for the stream-paired hook closed through setNotAvailable), i.e. the stop closure is not put under any additional condition. This decides that every transition function preserves 'hook open <=> resource held', not alternation over arbitrary lifecycles. closed_sessions_forgotten (prop_r4_c20_hls.go): a session an HLS muxer closes from one of its holders (range over the session map, the CDN session field) is removed from that holder in the same critical section, before or after the close, so that nothing can find and close it a second time. demand.initial_after_stop: path.onDemandPublisherState is set back to initial (the state in which the next demand starts a new runOnDemand pair) only on paths that have called the closure held in onUnDemandHook, in the storing function or, for a helper, at every call site.",
+		Text:      "Every closure returned by hooks.On* (13 sites) is held by one of three idioms, and each idiom is checked: locals are deferred or called on every path to return; path.onOfflineHook is stored only in setOnline after setOffline and called only nil-guarded in setOffline followed by = nil; path.onUnDemandHook is stored only in onDemandPublisherStart (entered only from state initial), called and cleared only in onDemandPublisherStop and the run teardown; path.onUnavailableHook is stored only in setAvailable after the stream initialised and called only in setNotAvailable, whose callers are each dominated by a literal implying the stream is held (frozen table) and which clears the stream on all paths; after a successful setAvailable every error exit rolls back; server-side field holders (rtsp conn/session, hls session) are stored and called only in their paired functions under the paired state literal; conversely (closed_when_open) in every closing function of the table - for path.run: after the event loop returned - every path to a return runs the stop closure unless it passes the edge on which the 'pair is open' literal is false (holder == nil, state != play, stream == nil for the stream-paired hook closed through setNotAvailable), i.e. the stop closure is not put under any additional condition. This decides that every transition function preserves 'hook open <=> resource held', not alternation over arbitrary lifecycles. closed_sessions_forgotten (prop_r4_c20_hls.go): a session an HLS muxer closes from one of its holders (range over the session map, the CDN session field) is removed from that holder in the same critical section, before or after the close, so that nothing can find and close it a second time. demand.initial_after_stop: path.onDemandPublisherState is set back to initial (the state in which the next demand starts a new runOnDemand pair) only in runs of the storing function that also call the closure held in onUnDemandHook (before or after the store; for a helper that does not call it, the same at every call site).",
 		Note:      "trusted: gortsplib session state machine (PrePlay->Play), hooks constructors launch the start command and return the closing closure"})
 	addMutants(
 		// C16
